@@ -362,6 +362,27 @@ class Pos2Kw(ast.NodeTransformer):
         return node
 
 
+class LogCalls(ast.NodeTransformer):
+    """import logging; logger = logging.getLogger(__name__) at module level and logger.debug("enter <fn>") as the first statement of every
+    function (after the docstring)"""
+
+    def visit_Module(self, node):
+        self.generic_visit(node)
+        i = 0
+        while i < len(node.body) and (isinstance(node.body[i], (ast.Import, ast.ImportFrom)) or (isinstance(node.body[i], ast.Expr) and isinstance(node.body[i].value, ast.Constant))):
+            i += 1
+        pre = ast.parse("import logging\nlogger = logging.getLogger(__name__)").body
+        node.body = node.body[:i] + pre + node.body[i:]
+        return node
+
+    def visit_FunctionDef(self, node):
+        self.generic_visit(node)
+        d = 1 if node.body and isinstance(node.body[0], ast.Expr) and isinstance(node.body[0].value, ast.Constant) else 0
+        call = ast.parse(f'logger.debug("enter {node.name}")').body[0]
+        node.body = node.body[:d] + [call] + node.body[d:]
+        return node
+
+
 SIGS = {}
 PARAM_MAP = {}
 
@@ -396,6 +417,8 @@ def transform(src, mode):
         tree = Guard2Else().visit(tree)
     elif mode == "pos2kw":
         tree = Pos2Kw(SIGS).visit(tree)
+    elif mode == "logcalls":
+        tree = LogCalls().visit(tree)
     ast.fix_missing_locations(tree)
     return ast.unparse(tree) + "\n"
 
@@ -436,7 +459,7 @@ def main():
     ap.add_argument("--props", default="")
     ap.add_argument("--per-file", action="store_true")
     a = ap.parse_args()
-    modes = ["rename", "mirror", "reformat", "augexpand", "elseswap", "chainsplit", "commute", "extractret", "notnorm", "tern2if", "paramrename", "dictcall", "fstr2concat", "guard2else", "pos2kw"] if a.mode == "all" else a.mode.split(",")
+    modes = ["rename", "mirror", "reformat", "augexpand", "elseswap", "chainsplit", "commute", "extractret", "notnorm", "tern2if", "paramrename", "dictcall", "fstr2concat", "guard2else", "pos2kw", "logcalls"] if a.mode == "all" else a.mode.split(",")
     props = a.props.split(",") if a.props else PROPS
     srcs = []
     for root, _, files in os.walk(os.path.join(REPO, "hexital")):
